@@ -15,6 +15,7 @@ package websocket
 
 import (
 	"context"
+	"net"
 	"net/http"
 	"runtime"
 	"sync"
@@ -42,9 +43,41 @@ func dial(ctx context.Context) (*websocket.Conn, error) {
 	switch u.Scheme {
 	case "ws", "wss":
 		header := http.Header{"Sec-WebSocket-Protocol": []string{"hprose"}}
+		// During the opening handshake the dialer honours only the deadline of ctx, not
+		// its cancellation: the connection is closed under it when ctx ends, so that a
+		// peer that accepts the connection and never answers cannot hold the call (and
+		// everybody waiting for the transport's lock) beyond cancel or Abort.
+		var lock sync.Mutex
+		var netConn net.Conn
+		d.NetDialContext = func(ctx context.Context, network, addr string) (net.Conn, error) {
+			c, err := (&net.Dialer{}).DialContext(ctx, network, addr)
+			lock.Lock()
+			netConn = c
+			lock.Unlock()
+			return c, err
+		}
+		done := make(chan struct{})
+		go func() {
+			select {
+			case <-ctx.Done():
+				lock.Lock()
+				if netConn != nil {
+					netConn.Close()
+				}
+				lock.Unlock()
+			case <-done:
+			}
+		}()
 		conn, response, err := d.DialContext(ctx, u.String(), header)
+		close(done)
 		if response != nil {
 			response.Body.Close()
+		}
+		if ctx.Err() != nil {
+			if conn != nil {
+				conn.Close()
+			}
+			return nil, ctx.Err()
 		}
 		return conn, err
 	}
